@@ -50,6 +50,8 @@ enum CallKind {
     Plain,
     Oneway,
     More,
+    /// both flags set: oneway wins, nothing is owed
+    OnewayMore,
 }
 
 #[derive(Clone, Debug)]
@@ -184,10 +186,11 @@ impl Harness for ChainH {
         let mut frames: Vec<FrameSpec> = Vec::new();
         let mut seq = 0u32;
         for _ in 0..ncalls {
-            let k = [CallKind::Plain, CallKind::Oneway, CallKind::More][cx.choose(3, "call:plain|oneway|more")];
+            let k = [CallKind::Plain, CallKind::Oneway, CallKind::More, CallKind::OnewayMore][cx.choose(if self.hold { 3 } else { 4 }, "call:plain|oneway|more|oneway+more")];
             kinds.push(k);
             match k {
                 CallKind::Oneway => {}
+                CallKind::OnewayMore => cx.goal("call-flagged-oneway-and-more"),
                 CallKind::Plain => {
                     seq += 1;
                     match cx.choose(if self.hold { 2 } else { 3 }, "reply:success|error|undecodable") {
@@ -307,6 +310,7 @@ impl Harness for ChainH {
                     CallKind::Plain => c,
                     CallKind::Oneway => c.set_oneway(true),
                     CallKind::More => c.set_more(true),
+                    CallKind::OnewayMore => c.set_oneway(true).set_more(true),
                 }
             })
             .collect();
@@ -663,13 +667,14 @@ impl Harness for ProxyStreamH {
 
 pub fn run_c06(tier: Tier) -> i32 {
     let mut rep = Report::new("C06", tier.name());
-    rep.rule = "DFS by re-execution over: chain in {plain, oneway, more}^1..N x per non-oneway call a reply script (success | declared error | a final reply that does not decode - wrong-shaped parameters or an error nobody declares; for `more` 0..2 continuing replies before that final reply) x trailing unrelated frame {absent, present} x arrival chunking of the reply bytes (cut candidates: before the first byte, after the first byte / in the middle / before the NUL of every frame, between frames; phase `inter` takes every subset of the inter-frame cuts, the other cuts and spurious Pending answers cost one deviation each). Outcomes are distinct (item sequence, number of transport polls)".into();
+    rep.rule = "DFS by re-execution over: chain in {plain, oneway, more, oneway+more}^1..N x per non-oneway call a reply script (success | declared error | a final reply that does not decode - wrong-shaped parameters or an error nobody declares; for `more` 0..2 continuing replies before that final reply) x trailing unrelated frame {absent, present} x arrival chunking of the reply bytes (cut candidates: before the first byte, after the first byte / in the middle / before the NUL of every frame, between frames; phase `inter` takes every subset of the inter-frame cuts, the other cuts and spurious Pending answers cost one deviation each). Outcomes are distinct (item sequence, number of transport polls)".into();
     rep.assumptions = vec!["server reply scripts conform to the protocol (one reply per call; continues only on replies to `more` calls)".into(), "the stream is polled only when its waker fired or new bytes were delivered".into(), "after a reply that does not decode the stream may end (what remains of the exchange is then not judged) or carry on; in both cases it must not take or wait for more frames than the chain is owed".into()];
     for g in [
         "chain-of-only-oneway-calls",
         "more-call-with-continuing-replies",
         "error-reply-in-chain",
         "undecodable-reply-in-chain",
+        "call-flagged-oneway-and-more",
         "trailing-unrelated-frame",
         "replies-in-separate-reads",
         "replies-coalesced-in-one-read",
@@ -685,8 +690,9 @@ pub fn run_c06(tier: Tier) -> i32 {
         ],
         Tier::Thorough => vec![
             ("inter/<=4calls", ChainH { max_calls: 4, cuts: Cuts::FreeInter, hold: false, sizes: vec![8], pend: true, max_cont: 2 }, 1),
-            ("dev/<=5calls", ChainH { max_calls: 5, cuts: Cuts::Dev, hold: false, sizes: vec![8], pend: true, max_cont: 2 }, 2),
-            ("dev/<=6calls", ChainH { max_calls: 6, cuts: Cuts::Dev, hold: false, sizes: vec![8], pend: false, max_cont: 2 }, 1),
+            ("dev2/<=4calls", ChainH { max_calls: 4, cuts: Cuts::Dev, hold: false, sizes: vec![8], pend: true, max_cont: 2 }, 2),
+            ("dev1/<=5calls", ChainH { max_calls: 5, cuts: Cuts::Dev, hold: false, sizes: vec![8], pend: true, max_cont: 2 }, 1),
+            ("natural/<=6calls", ChainH { max_calls: 6, cuts: Cuts::Dev, hold: false, sizes: vec![8], pend: false, max_cont: 1 }, 0),
         ],
     };
     for (name, h, budget) in plan {
